@@ -22,7 +22,7 @@ func (c16) Rule() string {
 }
 func (c16) ProcOpts() Proc { return Proc{RlimitAS: 4 << 30, MaxStack: 64 << 20} }
 
-var c16witness = []string{"zero", "ptr-zero", "empty", "one", "full", "cyclic"}
+var c16witness = []string{"zero", "ptr-zero", "empty", "one", "full", "cyclic", "nil-elems"}
 
 func (c16) Cases(tier string, seed int64, kf *KnownFindings) []Case {
 	var cs []Case
@@ -115,6 +115,9 @@ func witness(e zoo.Entry, kind string, seed int64) (interface{}, bool) {
 		}
 		cfg.NilProb, cfg.MaxLen, cfg.MinLen = 0.05, 3, 1
 		share = 0.5
+	case "nil-elems":
+		// containers that HAVE elements, all of them nil pointers (make([]*T, n))
+		cfg.NilProb, cfg.MaxLen, cfg.MinLen, cfg.MaxDepth = 1, 3, 2, 3
 	}
 	g := zoo.NewGen(seed, cfg)
 	g.Share = share
@@ -206,12 +209,33 @@ func (c16) Run(c Case, env *Env) Result {
 		res.Sample(map[string]interface{}{"TypeMapOf": e.Type.String(), "keys": keysOf(tm)})
 		return res
 	}
+	// callers own the returned maps and may write to them (RegisterType / RegisterNameType do):
+	// the maps of the previous extraction are scribbled on before the next one, so that an
+	// implementation handing out shared (cached) map objects is exposed
+	var prevT []map[string]reflect.Type
+	var prevN []map[string]string
+	scribble := func() {
+		for _, m := range prevT {
+			for k := range m {
+				delete(m, k)
+			}
+			m["scribble"] = reflect.TypeOf(0)
+		}
+		for _, m := range prevN {
+			for k := range m {
+				delete(m, k)
+			}
+			m["scribble"] = "scribble"
+		}
+		prevT, prevN = nil, nil
+	}
 	for j := lo; j < hi; j++ {
 		wk := c16witness[j]
 		w, ok := witness(e, wk, Mix(c.Seed, j))
 		if !ok {
 			continue
 		}
+		scribble()
 		feats := append(append([]string{}, base...), "witness="+wk)
 		cc := c
 		cc.Sub = j
@@ -233,6 +257,7 @@ func (c16) Run(c Case, env *Env) Result {
 			continue
 		}
 		res.Count("extractions_returned", 1)
+		prevT, prevN = []map[string]reflect.Type{tm, tm2}, []map[string]string{nm, nm2}
 		if len(tm2) != len(tm) || len(nm2) != len(nm) {
 			env.Viol(&res, Violation{Class: "inconsistent", Features: feats, Detail: "TypeMapFrom/NameMapFrom disagree with ExtractTypeNameMap", Case: cc})
 		}
